@@ -29,16 +29,16 @@ func runStoreChurn(r *rand.Rand, owners, opsPer, churnOps, resident int) [][]Eve
 	for g := 0; g < owners; g++ {
 		base := 10 * (g + 1)
 		for i := 0; i < opsPer; i++ {
-			o := storeOp{Op: []string{"set", "set", "get", "get", "has", "delete", "merge", "getint"}[r.Intn(8)]}
+			o := storeOp{Op: []string{"set", "set", "get", "get", "has", "delete", "merge", "merge", "getint", "getslice", "getslice"}[r.Intn(11)]}
 			o.K = base + 1 + r.Intn(3)
 			switch o.Op {
 			case "set":
-				o.V = r.Intn(40)
+				o.V = randStoreValTok(r)
 			case "merge":
 				o.K = 0
 				for k := base + 1; k <= base+3; k++ {
 					if r.Intn(2) == 0 {
-						o.M = append(o.M, [2]int{k, r.Intn(40)})
+						o.M = append(o.M, [2]int{k, randStoreValTok(r)})
 					}
 				}
 			case "getint":
